@@ -1,7 +1,8 @@
 (** Model of /repo/bitstr/bitstr.go (same case splits, same index arithmetic,
     cmpBytes with its [la < 8] manual loop and its bytes.Compare branch).
     Byte slices and strings are [list Z]; [int]/[int32] arithmetic is unbounded
-    [Z] (size hypothesis 8*len(s)+7 < 2^31 in the theorems).  A slice
+    [Z] here; Model/Bitstr32.v restates New and Len with the int32 wraps and
+    Proofs/Bitstr32Proofs.v shows the two agree whenever toBit + 7 < 2^31.  A slice
     expression, index or [make] that Go would panic on gives [None]. *)
 From Coq Require Import ZArith List Bool.
 From Low Require Import Lib.MachInt Lib.Bits Lib.BitSeq Lib.Lex.
